@@ -351,4 +351,36 @@ theorem symRun_sound (prog : Prog) (nreg : Nat) (hok : prog.ok nreg = true) (env
     bitsOf (run prog env0) i p = A.eval (64 * nreg) (valOf env0) :=
   (symRun_inv nreg (64 * nreg) (valOf env0) prog hok sinit env0 (sinit_inv nreg env0) hlen i p A hi hp h).symm
 
+/-- the affine form x_{v1} ⊕ x_{v2} ⊕ … (variables given as (register, bit)) -/
+def affOfVars (vs : List (Nat × Nat)) : Aff := vs.foldl (fun a v => a.xor (Aff.var v.1 v.2)) Aff.zero
+
+theorem valOf_var (env0 : Env) (i k : Nat) (hk : k < 64) : valOf env0 (64 * i + k) = bitsOf env0 i k := by
+  unfold valOf; congr 1 <;> omega
+
+theorem eval_foldl_vars (nreg : Nat) (env0 : Env) (vs : List (Nat × Nat)) (a : Aff)
+    (h : ∀ v ∈ vs, v.1 < nreg ∧ v.2 < 64) :
+    (vs.foldl (fun a v => a.xor (Aff.var v.1 v.2)) a).eval (64 * nreg) (valOf env0)
+      = vs.foldl (fun acc v => acc != bitsOf env0 v.1 v.2) (a.eval (64 * nreg) (valOf env0)) := by
+  induction vs generalizing a with
+  | nil => rfl
+  | cons v vs ih =>
+    have hv := h v (List.mem_cons_self ..)
+    simp only [List.foldl_cons]
+    rw [ih _ (fun w hw => h w (List.mem_cons_of_mem _ hw)), eval_xor, eval_var _ _ _ _ (by omega), valOf_var _ _ _ hv.2]
+
+theorem eval_affOfVars (nreg : Nat) (env0 : Env) (vs : List (Nat × Nat)) (h : ∀ v ∈ vs, v.1 < nreg ∧ v.2 < 64) :
+    (affOfVars vs).eval (64 * nreg) (valOf env0) = vs.foldl (fun acc v => acc != bitsOf env0 v.1 v.2) false := by
+  unfold affOfVars
+  rw [eval_foldl_vars nreg env0 vs _ h, eval_zero]
+
+/-- reading a symbolic table entry: the output bit is the XOR of the listed input bits -/
+theorem table_sound (prog : Prog) (nreg : Nat) (hok : prog.ok nreg = true) (env0 : Env) (hlen : env0.length = nreg)
+    (i p : Nat) (vs : List (Nat × Nat)) (hi : i < nreg) (hp : p < 64) (hvs : ∀ v ∈ vs, v.1 < nreg ∧ v.2 < 64)
+    (h : symRun prog sinit i p = some (affOfVars vs)) :
+    bitsOf (run prog env0) i p = vs.foldl (fun acc v => acc != bitsOf env0 v.1 v.2) false := by
+  rw [symRun_sound prog nreg hok env0 hlen i p _ hi hp h, eval_affOfVars nreg env0 vs hvs]
+
+theorem bitsOf_append_left (a b : Env) (i p : Nat) (h : i < a.length) : bitsOf (a ++ b) i p = bitsOf a i p := by
+  simp [bitsOf, List.getD_eq_getElem?_getD, List.getElem?_append_left h]
+
 end SqiProofs.Bitslice
